@@ -45,8 +45,13 @@ def diffusivity_laws(cname):
         inp = inter.Inputs(calc)
         D, cap = inter.run_diffusivity(calc, inp)
         dim = calc.dim
+        if 'pinv' in ENG.records:
+            # uniqueness instance of the Moore-Penrose contract: the transpose is offered as candidate
+            # (it satisfies the four equations iff the projected rate matrix is symmetric)
+            A, X = ENG.records['pinv'][0]
+            contracts.unique_pinv_hint((A, X), np.asarray(X, dtype=object).T)
         info = {'inputs': inp.inputs, 'replayer': 'D', 'extra': {'crystal': cname},
-                'probe': [inter.concrete_instance(inp, k) for k in (0, 4)]}
+                'probe': [inter.concrete_instance(inp, k) for k in (0, 4)] + inter.witness_instances(calc, inp)}
         obs = []
 
         def ob(n, v, **kw):
@@ -73,18 +78,18 @@ def diffusivity_laws(cname):
             terms.append((rho[i] * W, e))
         sos = sum(0.5 * c * e * e for c, e in terms)
         for a in range(dim):
-            ob('diag-nonneg-%d' % a, D[a, a] >= 0, timeout_ms=30000)
+            ob('diag-nonneg-%d' % a, D[a, a] >= 0, timeout_ms=30000 if 'pinv' not in ENG.records else 8000)
         # mirror/rotation symmetry may force the off-diagonal entries to vanish: then PSD follows from the diagonal.
         for a in range(dim):
             for c in range(dim):
                 if a != c:
-                    ob('offdiag-zero-%d%d' % (a, c), D[a, c] == 0, timeout_ms=10000, probe=[])
+                    obs.append(('lemma:%s:offdiag-zero-%d%d' % (name, a, c), D[a, c] == 0, {'timeout_ms': 10000 if 'pinv' not in ENG.records else 3000}))
         # lemma chain: abstract entries d_ac with the lemmas proven above as hypotheses |- v^T d v >= 0
         d = [[core.z3.Real('d_%d_%d' % (a, c)) for c in range(dim)] for a in range(dim)]
         hyps = [d[a][a] >= 0 for a in range(dim)] + [d[a][c] == 0 for a in range(dim) for c in range(dim) if a != c]
         quad = sum(v[a].z * v[c].z * d[a][c] for a in range(dim) for c in range(dim))
         req = ['%s:diag-nonneg-%d' % (name, a) for a in range(dim)] + \
-              ['%s:offdiag-zero-%d%d' % (name, a, c) for a in range(dim) for c in range(dim) if a != c]
+              ['lemma:%s:offdiag-zero-%d%d' % (name, a, c) for a in range(dim) for c in range(dim) if a != c]
         obs.append(('%s:psd-chain-diagonal' % name, core.z3.Implies(core.z3.And(*hyps), quad >= 0),
                     {'requires': req, 'sig': 'D:psd'}))
         # general route: sum-of-squares certificate, then the direct query (both may stay inconclusive: reported)
@@ -183,7 +188,7 @@ def sections(tier):
     secs = []
     PSD_TO[0] = 0 if tier == 'quick' else 300000   # quick: PSD by lemma chain only; thorough: also SOS certificate + direct query
     if tier == 'quick':
-        plan = [('X1s', 60000, 170), ('X1', 60000, 170), ('X4r', 60000, 170)]
+        plan = [('X1s', 60000, 170), ('X1', 60000, 170), ('X4r', 60000, 170), ('X2', 10000, 170), ('X5', 10000, 170)]
         eplan = [('X1s', 0), ('X1', 1), ('X2', 0)]
     else:
         plan = [('X1s', 300000, 3000), ('X1', 300000, 3000), ('X4r', 300000, 3000), ('X2', 300000, 3000), ('X3', 300000, 3000)]
